@@ -325,6 +325,18 @@ def main(argv):
         pr = dict(ok=False, rc=rc, obligations=1,
                   discharged=0, theorems=[], axioms=[], bad_axioms=[], log=blog[-3000:], secs=0)
     proof_ok = build_ok and pr['ok'] and not hyg
+    coqchk = None
+    if proof_ok and tier == 'thorough' and not a.no_proof:
+        # independent re-check of the compiled closure of the property files, with its axiom list
+        mods = ' '.join('V.props.' + f[:-2] for f in pr.get('files', []))
+        rc2, out2 = sh('timeout 3000 coqchk -o -silent -Q . V %s 2>&1 | tail -40' % mods, cwd=COQ)
+        m2 = re.search(r'\* Axioms:\s*(.*?)\n\s*\n', out2, re.S)
+        ax = m2.group(1).strip() if m2 else 'unparsed'
+        coqchk = dict(rc=rc2, axioms=ax,
+                      type_in_type='type-in-type: <none>' in out2, summary=out2[-600:] if rc2 or ax != '<none>' else 'ok')
+        if rc2 != 0 or ax != '<none>':
+            proof_ok = False
+            pr['log'] = (pr.get('log') or '') + '\ncoqchk: ' + out2[-800:]
 
     # ---- correspondence + direct oracle ----
     ctx = Ctx(prop, tier, seed)
@@ -448,7 +460,7 @@ def main(argv):
         distribution=rep.dist, exhaustive=rep.exhaustive,
         correspondence_disagreements=len(rep.disagreements),
         known_findings_seen=[t for (_n, t) in known_hit],
-        notes=rep.notes, proof_secs=pr.get('secs'),
+        notes=rep.notes, proof_secs=pr.get('secs'), coqchk=coqchk, props_files=pr.get('files'),
     )
     cov.update(rep.extra)
     ev = dict(property_id=prop, tier=tier, seed=seed, level='proof', coverage=cov,
